@@ -3953,7 +3953,20 @@ where
               self.add_error(format!("expected type {}, got {:?}", ident, self.cbor));
             }
           }
-          _ => (),
+          // no other prelude type name denotes a tagged item here; a tagged
+          // item is not a member of an untagged type
+          _ => {
+            // integer = int / bigint and unsigned = uint / biguint admit bignums
+            let is_bignum = matches!(value.as_ref(), Value::Bytes(_))
+              && match lookup_ident(ident.ident) {
+                Token::INTEGER => *tag == 2 || *tag == 3,
+                Token::UNSIGNED => *tag == 2,
+                _ => false,
+              };
+            if !is_bignum {
+              self.add_error(format!("expected type {}, got {:?}", ident, self.cbor));
+            }
+          }
         }
 
         Ok(())
